@@ -55,6 +55,19 @@ type call struct {
 
 type finding struct{ Sig, Desc string }
 
+// behaviours may be combined with "+", e.g. "dialerr+hijack-res" (the dial fails and the response modifier
+// hijacks on the resulting 502), "rterr+hijack-res", "skip+hijack-res".
+func has(beh, part string) bool {
+	for _, p := range strings.Split(beh, "+") {
+		if p == part {
+			return true
+		}
+	}
+	return false
+}
+
+func isHijack(beh string) bool { return has(beh, "hijack-req") || has(beh, "hijack-res") }
+
 var (
 	ca      *x509.Certificate
 	mitmCfg *mitm.Config
@@ -143,14 +156,16 @@ func run(sc scenario) (body func(), check func(r *vrt.Result) []finding) {
 			c := rec("req", req, req.Header)
 			calls = append(calls, c)
 			retained = append(retained, req)
-			switch behOf(c.Conn, c.Seq) {
-			case "reqerr":
-				return errors.New("request modifier failed")
-			case "skip":
+			b := behOf(c.Conn, c.Seq)
+			if has(b, "skip") {
 				c.Ctx.SkipRoundTrip()
-			case "hijack-req":
+			}
+			if has(b, "hijack-req") {
 				hijack(req)
 				hijackRetTick[c.Conn] = vrt.Tick()
+			}
+			if has(b, "reqerr") {
+				return errors.New("request modifier failed")
 			}
 			return nil
 		}
@@ -158,12 +173,13 @@ func run(sc scenario) (body func(), check func(r *vrt.Result) []finding) {
 			c := rec("res", res.Request, res.Header)
 			c.Warning = res.Header.Get("Warning")
 			calls = append(calls, c)
-			switch behOf(c.Conn, c.Seq) {
-			case "reserr":
-				return errors.New("response modifier failed")
-			case "hijack-res":
+			b := behOf(c.Conn, c.Seq)
+			if has(b, "hijack-res") {
 				hijack(res.Request)
 				hijackRetTick[c.Conn] = vrt.Tick()
+			}
+			if has(b, "reserr") {
+				return errors.New("response modifier failed")
 			}
 			return nil
 		}
@@ -171,14 +187,14 @@ func run(sc scenario) (body func(), check func(r *vrt.Result) []finding) {
 			c := rec("rt", req, req.Header)
 			c.Warning = req.Header.Get("Warning")
 			rtCalls = append(rtCalls, c)
-			if behOf(c.Conn, c.Seq) == "rterr" {
+			if has(behOf(c.Conn, c.Seq), "rterr") {
 				return nil, errors.New("simulated round trip failure")
 			}
 			return pworld.SimpleResponse(req, 200, "origin says hi to "+c.Conn+"/"+c.Seq), nil
 		}
 		// blind tunnels dial a target that echoes one line
 		w.Proxy.SetDial(func(network, addr string) (net.Conn, error) {
-			if behOf("0", "0") == "dialerr" {
+			if has(behOf("0", "0"), "dialerr") {
 				return nil, errors.New("simulated dial failure")
 			}
 			a, b := simnet.Pipe("proxy>target", "target")
@@ -229,7 +245,7 @@ func run(sc scenario) (body func(), check func(r *vrt.Result) []finding) {
 			if mode != "plain" {
 				fmt.Fprintf(cl.C, "CONNECT origin.test:443 HTTP/1.1\r\nHost: origin.test:443\r\nX-Conn: %s\r\nX-Seq: 0\r\n\r\n", name)
 				b0 := beh[0]
-				if b0 == "hijack-req" || b0 == "hijack-res" {
+				if isHijack(b0) {
 					readMarkerOrEOF(br)
 					return
 				}
@@ -270,7 +286,7 @@ func run(sc scenario) (body func(), check func(r *vrt.Result) []finding) {
 					target = "/x"
 				}
 				fmt.Fprintf(rw, "GET %s HTTP/1.1\r\nHost: origin.test\r\nX-Conn: %s\r\nX-Seq: %d\r\n\r\n", target, name, k)
-				if beh[k] == "hijack-req" || beh[k] == "hijack-res" {
+				if isHijack(beh[k]) {
 					readMarkerOrEOF(br)
 					return
 				}
@@ -337,12 +353,12 @@ func run(sc scenario) (body func(), check func(r *vrt.Result) []finding) {
 		hijackedAt := -1
 		nExpected := len(sc.Beh)
 		for k, b := range sc.Beh {
-			if b == "hijack-req" || b == "hijack-res" {
+			if isHijack(b) {
 				hijackedAt = k
 				nExpected = k + 1
 				break
 			}
-			if k == 0 && sc.Mode != "plain" && b == "dialerr" {
+			if k == 0 && sc.Mode != "plain" && has(b, "dialerr") {
 				nExpected = 1
 				break
 			}
@@ -377,7 +393,7 @@ func run(sc scenario) (body func(), check func(r *vrt.Result) []finding) {
 			isConnect := conn == "0" && sc.Mode != "plain" && k == 0
 			// upstream contact
 			switch {
-			case beh == "skip" || beh == "hijack-req":
+			case has(beh, "skip") || has(beh, "hijack-req"):
 				if len(rts[ky]) != 0 {
 					add("upstream_contact_unexpected:"+btag, "exchange %v: %d round trips although the modifier asked to %s", ky, len(rts[ky]), beh)
 				}
@@ -389,13 +405,13 @@ func run(sc scenario) (body func(), check func(r *vrt.Result) []finding) {
 					if rts[ky][0].Tick < c.Tick {
 						add("upstream_before_reqmod:"+btag, "exchange %v: origin contacted before the request modifier ran", ky)
 					}
-					if beh == "reqerr" && rts[ky][0].Warning == "" {
+					if has(beh, "reqerr") && rts[ky][0].Warning == "" {
 						add("reqerr_no_warning:"+btag, "exchange %v: request modifier error not surfaced as a Warning header on the forwarded request", ky)
 					}
 				}
 			}
 			rs := ress[ky]
-			if beh == "hijack-req" {
+			if has(beh, "hijack-req") {
 				if len(rs) != 0 {
 					add("resmod_after_hijack:"+btag, "exchange %v: response modifier ran %d times after the request modifier hijacked the connection", ky, len(rs))
 				}
@@ -414,7 +430,7 @@ func run(sc scenario) (body func(), check func(r *vrt.Result) []finding) {
 			if rs[0].Tick < c.Tick {
 				add("resmod_before_reqmod:"+btag, "exchange %v: response modifier ran before the request modifier", ky)
 			}
-			if (beh == "rterr" || (isConnect && beh == "dialerr")) && rs[0].Warning == "" {
+			if (has(beh, "rterr") || (isConnect && has(beh, "dialerr"))) && rs[0].Warning == "" {
 				add("rterr_no_warning_in_resmod:"+btag, "exchange %v: the 502 seen by the response modifier has no Warning header", ky)
 			}
 		}
@@ -453,7 +469,7 @@ func run(sc scenario) (body func(), check func(r *vrt.Result) []finding) {
 			idx := 0
 			for k := 0; k < nExpected; k++ {
 				b := sc.Beh[k]
-				if b == "hijack-req" || b == "hijack-res" {
+				if isHijack(b) {
 					break
 				}
 				if idx >= len(o.statuses) {
@@ -461,13 +477,13 @@ func run(sc scenario) (body func(), check func(r *vrt.Result) []finding) {
 					break
 				}
 				want := 200
-				if b == "rterr" || b == "dialerr" {
+				if has(b, "rterr") || has(b, "dialerr") {
 					want = 502
 				}
 				if o.statuses[idx] != want {
 					add("wrong_status:"+tag+":"+b, "exchange %d (%s): client received status %d, want %d", k, b, o.statuses[idx], want)
 				}
-				wantWarn := b == "reserr" || b == "rterr" || b == "dialerr"
+				wantWarn := has(b, "reserr") || has(b, "rterr") || has(b, "dialerr")
 				if wantWarn && !o.warnings[idx] {
 					add("no_warning_at_client:"+tag+":"+b, "exchange %d (%s): response reached the client without a Warning header", k, b)
 				}
@@ -525,7 +541,7 @@ func firstLine(s string) string {
 
 func scenarios(tier string) []scenario {
 	var out []scenario
-	inner := []string{"pass", "reqerr", "reserr", "skip", "rterr", "hijack-req", "hijack-res"}
+	inner := []string{"pass", "reqerr", "reserr", "skip", "rterr", "hijack-req", "hijack-res", "rterr+hijack-res", "skip+hijack-res", "reqerr+hijack-res", "reqerr+reserr"}
 	// plain: all behaviour sequences of length 1..2 (3 thorough)
 	maxLen := 2
 	if tier == "thorough" {
@@ -538,7 +554,7 @@ func scenarios(tier string) []scenario {
 		var beh []string
 		for i, x := range seq {
 			beh = append(beh, inner[x])
-			if strings.HasPrefix(inner[x], "hijack") && i != len(seq)-1 {
+			if isHijack(inner[x]) && i != len(seq)-1 {
 				return // nothing follows a hijack
 			}
 		}
@@ -547,18 +563,18 @@ func scenarios(tier string) []scenario {
 			out = append(out, scenario{Mode: "plain", Beh: beh, Second: true})
 		}
 	})
-	for _, b0 := range []string{"pass", "reqerr", "reserr", "dialerr", "hijack-req", "hijack-res"} {
+	for _, b0 := range []string{"pass", "reqerr", "reserr", "dialerr", "hijack-req", "hijack-res", "dialerr+hijack-res", "dialerr+reserr", "reqerr+hijack-res"} {
 		out = append(out, scenario{Mode: "blind", Beh: []string{b0}}, scenario{Mode: "blind", Beh: []string{b0}, Second: true})
 	}
 	for _, mode := range []string{"mitm-plain", "mitm-tls"} {
-		for _, b0 := range []string{"pass", "reqerr", "reserr", "hijack-req", "hijack-res"} {
-			if strings.HasPrefix(b0, "hijack") {
+		for _, b0 := range []string{"pass", "reqerr", "reserr", "hijack-req", "hijack-res", "reqerr+hijack-res"} {
+			if isHijack(b0) {
 				out = append(out, scenario{Mode: mode, Beh: []string{b0}})
 				continue
 			}
 			for _, b1 := range inner {
 				out = append(out, scenario{Mode: mode, Beh: []string{b0, b1}})
-				if b0 == "pass" && !strings.HasPrefix(b1, "hijack") {
+				if b0 == "pass" && !isHijack(b1) {
 					for _, b2 := range []string{"pass", "hijack-req", "hijack-res"} {
 						out = append(out, scenario{Mode: mode, Beh: []string{b0, b1, b2}})
 					}
